@@ -6,6 +6,7 @@ from hypothesis import strategies as st
 from vlib import strat as S, oracles as O, groups as GR
 
 ID = "C17"
+SWITCH_OFF = 6        # every 6th case runs with xfab.CHECKS switched off (results must not depend on it)
 RULE = ("Hypothesis builds a model (cell, one of the 230 symbols with random blanks, 1-12 atoms with unique labels, element from "
         "the full table, coordinates, adp kind in {Uiso,Uani,Biso,Bani} per atom or absent for the file, optional esd suffix on "
         "any number, optional occupancy column, optional multiplicity column under either spelling, optional atom-type loop "
